@@ -161,3 +161,22 @@ func faultyReader(st []tlog.Hash, poisoned int64) tlog.HashReader {
 		return out, err
 	})
 }
+
+// shortReader passes reads on and drops the last `drop` hashes of every reply
+// without reporting an error.
+type shortReader struct {
+	r           tlog.HashReader
+	drop        int
+	asked, gave int
+}
+
+func (s *shortReader) ReadHashes(ix []int64) ([]tlog.Hash, error) {
+	out, err := s.r.ReadHashes(ix)
+	if err != nil {
+		return nil, err
+	}
+	s.asked = len(ix)
+	out = out[:max(0, len(out)-s.drop)]
+	s.gave = len(out)
+	return out, nil
+}
